@@ -52,6 +52,10 @@ def init (zero : α) (N : Nat) (C : Nat → Nat → α) : Tabs α :=
 
 variable [Add α] [LT α] [DecidableLT α]
 
+/-- the strict test selected by `mode` (0 = MINIMIZE: `a < b`, 1 = MAXIMIZE: `a > b`, anything else: never) -/
+def better (mode : Nat) (a b : α) : Bool :=
+  (mode == 0 && decide (a < b)) || (mode == 1 && decide (a > b))
+
 /-- body of the `k` loop, both tests as written (`mode` is compared with the constants 0 = MINIMIZE, 1 = MAXIMIZE;
 the second test reads `D[i,j]` after the first assignment) -/
 def stepK (mode i j k : Nat) (t : Tabs α) : Tabs α :=
